@@ -56,6 +56,10 @@ def tmpl(I, name, v=2):
         return c(b'size: 3\nbinary: ') + c(ln) + c(b'\n') + hole(I, 'p', 3) + c(b'\nOK\n')
     if name == 'list':
         return c(b'a: ') + hole(I, 'v', 1) + c(b'\nlist_OK\n') + hole(I, 'k', 1) + c(b': x\nlist_OK\nOK\n')
+    if name == 'list4':         # four list frames: distinct keys, a repeated key, an empty frame in the middle
+        return c(b'a: 1\nlist_OK\nb: 2\nlist_OK\nlist_OK\na: ') + hole(I, 'v', 1) + c(b'\nlist_OK\nOK\n')
+    if name == 'bin0':          # an empty binary chunk as the first component of a response
+        return c(b'binary: 0\n\nsize: ') + hole(I, 'v', 1, 48, 57) + c(b'\nOK\n')
     if name == 'listerr':
         return c(b'a: b\nlist_OK\nc: ') + hole(I, 'v', 1) + c(b'\nACK [5@1] {x} ') + hole(I, 'm', 1) + c(b'\n')
     if name == 'two':
@@ -70,7 +74,7 @@ def tmpl(I, name, v=2):
         return c(b'binary: 20\n') + hole(I, 'p', 2) + c(b'ABCDEFGHIJKLMNOPQR\nOK\nk: v\nOK\n')
     raise KeyError(name)
 
-TEMPLATES_WF = ['field', 'keys', 'field2', 'ack', 'binary', 'list', 'listerr', 'two', 'okok', 'long', 'longbin']
+TEMPLATES_WF = ['field', 'keys', 'field2', 'ack', 'binary', 'list', 'list4', 'bin0', 'listerr', 'two', 'okok', 'long', 'longbin']
 
 # ---------------------------------------------------------------------------- sessions
 def run_session(I, flavour, body, cuts, cap, max_receives=4, greeting=GREETING, pending=False):
@@ -145,6 +149,9 @@ def instances_for(prop, tier, seed):
         for tname in ('ackbig', 'binhdr', 'ack', 'binary', 'field'):
             out.append({'t': tname, 'flav': 'sync', 'cap': 8})
             out.append({'t': tname, 'flav': 'async', 'cap': 4096})
+        for tname in ('long', 'longbin', 'two', 'list4'):           # pipelined / long well-formed data (buffer growth and reuse must not panic either)
+            out.append({'t': tname, 'flav': 'sync', 'cap': 8})
+            out.append({'t': tname, 'flav': 'async', 'cap': 8})
         for n in ((1, 2, 3) if q else (1, 2, 3, 4, 5)):
             out.append({'t': 'greetfree%d' % n, 'flav': 'sync', 'cap': 8})
             out.append({'t': 'greetfree%d' % n, 'flav': 'async', 'cap': 8})
